@@ -23,7 +23,7 @@ MANIFEST = {
             "flavor only through try_push/try_extend with exactly the plain encoding. Together these make any stack of in-crate "
             "modifiers a composition of byte-stream transformers for every value and innermost storage.",
     "note": "Does not re-derive the concrete composed byte strings (they follow from C02+C06+C10). Trusted: Iterator::try_for_each order, cobs/crc crates.",
-    "technique": "static analysis: canonical per-path summaries + who-may-call over resolved callees + table agreement",
+    "technique": "static analysis: semantic MIR summaries vs specifications + who-may-call over resolved callees + table agreement",
 }
 
 
